@@ -61,6 +61,17 @@ func main() {
 		os.Exit(loadfam.GrowSpecial())
 	case "grow-echo":
 		os.Exit(loadfam.GrowEcho())
+	case "grow-exitcodes":
+		os.Exit(clifam.GrowExitCodes())
+	case "grow":
+		// every specification grown beyond the listed properties, against the CLI
+		rc := 0
+		for _, f := range []func() int{loadfam.GrowLocate, loadfam.GrowSpecial, loadfam.GrowEcho, clifam.GrowExitCodes} {
+			if r := f(); r > rc {
+				rc = r
+			}
+		}
+		os.Exit(rc)
 	case "C11":
 		tier := "quick"
 		if len(os.Args) > 2 {
